@@ -52,7 +52,9 @@ func NewViaModifier(requestedBy string) *ViaModifier {
 func (m *ViaModifier) ModifyRequest(req *http.Request) error {
 	via := fmt.Sprintf("%d.%d %s-%s", req.ProtoMajor, req.ProtoMinor, m.requestedBy, m.boundary)
 
-	if v := req.Header.Get("Via"); v != "" {
+	// Via may be spread over several header lines which together form one
+	// list: inspect and keep all of them, not only the first.
+	if v := joinValues(req.Header["Via"]); v != "" {
 		if m.hasLoop(v) {
 			err := fmt.Errorf("via: detected request loop, header contains %s", via)
 
@@ -84,6 +86,19 @@ func (m *ViaModifier) ModifyResponse(res *http.Response) error {
 	}
 
 	return nil
+}
+
+// joinValues combines the non-empty lines of a list-valued header into a
+// single comma separated value, preserving their order.
+func joinValues(lines []string) string {
+	var vs []string
+	for _, l := range lines {
+		if l != "" {
+			vs = append(vs, l)
+		}
+	}
+
+	return strings.Join(vs, ", ")
 }
 
 // hasLoop parses via and attempts to match requestedBy against the contained
